@@ -309,6 +309,85 @@ def hsr_case(rng, mode):
     return ["hsr %s %s %s" % (mode, script, base[0].split(" ", 2)[2])]
 
 
+# ---- letter case on the handshake path: IP literals are byte-exact, DNS names are not
+V6_GROUPS = [  # (spellings of one and the same address)
+    [b"2001:DB8::A", b"2001:db8::a", b"2001:Db8::a", b"2001:0DB8:0:0:0:0:0:A", b"2001:db8:0:0:0:0:0:a",
+     b"2001:DB8:0::A", b"2001:0db8::000a"],
+    [b"FE80::1", b"fe80::1", b"Fe80::1", b"FE80:0:0:0:0:0:0:1", b"fe80::0001"],
+    [b"::FFFF:1.2.3.4", b"::ffff:1.2.3.4", b"::FffF:1.2.3.4", b"0:0:0:0:0:FFFF:1.2.3.4",
+     b"0:0:0:0:0:ffff:1.2.3.4", b"::FFFF:102:304", b"::ffff:102:304"],
+    [b"::A", b"::a", b"0:0:0:0:0:0:0:A", b"::000A"],
+    [b"ABCD:EF01::", b"abcd:ef01::", b"AbCd:eF01::", b"ABCD:EF01:0:0:0:0:0:0"],
+    [b"A:B:C:D:E:F:1:2", b"a:b:c:d:e:f:1:2", b"A:b:C:d:E:f:1:2", b"000A:000B:C:D:E:F:1:2"],
+    [b"1.2.3.4"], [b"::1", b"0:0:0:0:0:0:0:1"],
+]
+V6_ADDR = {0: bytes.fromhex("20010db800000000000000000000000a"), 1: bytes.fromhex("fe800000000000000000000000000001"),
+           2: bytes(10) + b"\xff\xff\x01\x02\x03\x04", 3: bytes(15) + b"\x0a",
+           4: bytes.fromhex("abcdef01") + bytes(12), 5: bytes.fromhex("000a000b000c000d000e000f00010002"),
+           6: bytes([1, 2, 3, 4]), 7: bytes(15) + b"\x01"}
+DNS_MIXED = [b"WWW.Example.COM", b"www.example.com", b"Www.EXAMPLE.com", b"MAIL.Host-1.Example.ORG", b"A.b", b"XN--A.De",
+             b"LOCALHOST", b"Host", b"a.B.c.D"]
+
+
+def mixcase(rng, b):
+    return bytes((c ^ 0x20) if ((65 <= c <= 90 or 97 <= c <= 122) and rng.chance(1, 2)) else c for c in b)
+
+
+def case_case(rng, mode, op=None):
+    """handshake for a name whose letter case matters (IP literal: CN must be byte-identical) or must
+    not matter (DNS name); mostly CN-only certificates"""
+    op = op or rng.choice(["hs", "hs", "hsn", "hsn", "chs", "hsr"])
+    ents = []
+    if rng.chance(2, 3):
+        gi = rng.below(len(V6_GROUPS))
+        grp = V6_GROUPS[gi]
+        name = rng.choice(grp)
+        if rng.chance(1, 4):
+            name = mixcase(rng, name)
+        r = rng.below(10)
+        if r < 3:
+            cn = name
+        elif r < 5:
+            cn = name.lower() if rng.chance(1, 2) else name.upper()
+        elif r < 7:
+            cn = mixcase(rng, name)
+        elif r < 9:
+            cn = rng.choice(grp)                # equivalent (or the same) spelling
+        else:
+            cn = rng.choice(rng.choice(V6_GROUPS))
+        k = rng.below(10)
+        if k == 0:
+            ents.append("san-ip:" + vf.hexs(V6_ADDR[gi]))
+        elif k == 1:
+            ents.append("san-ip:" + vf.hexs(V6_ADDR[(gi + 1) % len(V6_GROUPS)]))
+        elif k == 2:
+            ents.append("san-dns:" + vf.hexs(cn))
+        ents.append("cn:" + vf.hexs(cn))
+    else:
+        name = rng.choice(DNS_MIXED)
+        if rng.chance(1, 2):
+            name = mixcase(rng, name)
+        r = rng.below(8)
+        if r < 2:
+            cn = name
+        elif r < 4:
+            cn = name.lower() if rng.chance(1, 2) else name.upper()
+        elif r < 5:
+            cn = mixcase(rng, name)
+        elif r < 7 and b"." in name:
+            cn = mixcase(rng, b"*" + name[name.index(b"."):])
+        else:
+            cn = rng.choice(DNS_MIXED)
+        if rng.chance(1, 3):
+            ents.append("san-dns:" + vf.hexs(cn))
+        else:
+            ents.append("cn:" + vf.hexs(cn))
+    head = [op, mode]
+    if op == "hsr":
+        head.append("".join(rng.choice("hhwr") for _ in range(2 + rng.below(3))))
+    return [" ".join(head + ents + ["name:" + vf.hexs(name)])]
+
+
 def pton_cases(rng, mode, n):
     out = [["pton %s %s" % (mode, vf.hexs(s))] for s in IP_LITS]
     pal = [b"0", b"1", b"2", b"5", b"9", b".", b":", b"a", b"F", b"g", b" ", b"f"]
@@ -495,7 +574,10 @@ def run(ck):
                       "proper-prefix + '.evil', wildcard cut at the boundary, NUL after the boundary); handshake "
                       "cases also as sequences on ONE client context (failed connect or full handshake for name A, "
                       "optional tls_reset, handshake for name B) and as retry scripts on ONE connection (2-6 further "
-                      "tls_handshake / tls_write / tls_read calls after the first verdict, which must not change); plus the "
+                      "tls_handshake / tls_write / tls_read calls after the first verdict, which must not change) and a "
+                      "letter-case family (IPv6/IPv4-mapped literals in upper/lower/mixed case and equivalent spellings "
+                      "against CN-only certificates, mixed-case DNS names) through tls_connect_socket, tls_connect_fds "
+                      "and tls_connect_servername (loopback TCP); plus the "
                       "exhaustive set of (cert string, name) pairs over {a,b,*,.,-} (range-hash, as dNSName and as "
                       "CN); every case is run in mode g (platform inet_pton) and mode c (usual/socket_pton.c); "
                       "distinct_nontrivial = distinct op lines whose certificate carries at least one name (the pairs of "
@@ -555,6 +637,7 @@ def run(ck):
     # end-to-end: real handshake over a socketpair (self-signed, verify_cert off, verify_name on)
     nh = ck.scale(300, 2000)
     hcases = [hs_case(rng, plat) if i % 4 else long_case(rng, "hs", plat, maxname=255) for i in range(nh)]
+    hcases = [["hsn" + c[0][2:]] if i % 5 == 1 else c for i, c in enumerate(hcases)]   # via connect_servername
     nfail += par_compare(ck, hs[plat], dcmd, hcases, "handshake", nontrivial=nontrivial, chunk=50, workers=12)
     ck.sample(hcases[0][0])
     mark("handshake")
@@ -568,6 +651,12 @@ def run(ck):
     nfail += par_compare(ck, hs[plat], dcmd, rcases, "retry", nontrivial=nontrivial, chunk=25, workers=12)
     ck.sample(rcases[0][0])
     mark("retry")
+    # letter case of the requested name must reach the name check unchanged (IP literal CNs are
+    # byte-exact, DNS names case-insensitive); through connect_socket, connect_fds, connect_servername
+    ccases = [case_case(rng, plat) for _ in range(ck.scale(300, 2000))]
+    nfail += par_compare(ck, hs[plat], dcmd, ccases, "letter-case", nontrivial=nontrivial, chunk=25, workers=12)
+    ck.sample(ccases[0][0])
+    mark("letter-case")
     ck.cov["traces_validated_against_impl"] = ck.cov["evaluations"]
     ck.cov["exhaustive"] = False
     if not ck.quick():
